@@ -2,7 +2,7 @@
    lookups of Model/History.v that every theorem about sealing and verifying is stated with. *)
 From Coq Require Import List NArith Bool.
 Import ListNotations.
-From MHL Require Import Model.History Model.Emit Gen.GeneratedFns Proofs.BaseFacts Proofs.SealFacts.
+From MHL Require Import Model.History Model.Seal Model.Emit Gen.GeneratedFns Proofs.BaseFacts Proofs.SealFacts.
 
 Lemma find_pred_ext {A} (f g : A -> bool) l : (forall x, f x = g x) -> find f l = find g l.
 Proof. intros H. induction l as [|a l IH]; cbn [find]; [reflexivity|]. rewrite H, IH. reflexivity. Qed.
@@ -75,4 +75,49 @@ Proof.
     destruct (find_media_hash g p) as [r|]; [|reflexivity].
     rewrite <- (fold_left_map_in append_if_absent e_fmt). reflexivity. }
   rewrite H, append_if_absent_fold. reflexivity.
+Qed.
+
+(* ---- commands.seal_file_path: the list of formats that are hashed = to_generate ---------------------------------- *)
+Lemma filter_append_fold (P : fmt -> bool) : forall l acc,
+  fold_left (fun g f => if P f then g ++ [f] else g) l acc = acc ++ filter P l.
+Proof.
+  induction l as [|x l IH]; intros acc; cbn [fold_left filter]; [rewrite app_nil_r; reflexivity|].
+  destruct (P x); rewrite IH; [rewrite <- app_assoc; reflexivity|reflexivity].
+Qed.
+
+Lemma dedup_by_app_fresh : forall (a : list fmt) seen b,
+  NoDup a -> (forall x, In x a -> ~ In x seen) ->
+  dedup_by fmt_eqb seen (a ++ b) = a ++ dedup_by fmt_eqb (a ++ seen) b.
+Proof.
+  induction a as [|x a IH]; intros seen b Hnd Hfresh; cbn [app dedup_by]; [reflexivity|].
+  inversion Hnd as [|? ? Hx Hnd']; subst.
+  assert (E : existsb (fmt_eqb x) seen = false).
+  { apply (proj2 (memf_not_In x seen)). apply Hfresh. left. reflexivity. }
+  rewrite E. f_equal. rewrite IH; [|exact Hnd'|].
+  - f_equal. apply dedup_by_seen_ext. intros y. rewrite existsb_app. cbn [existsb]. rewrite existsb_app.
+    destruct (fmt_eqb y x), (existsb (fmt_eqb y) a), (existsb (fmt_eqb y) seen); reflexivity.
+  - intros y Hy [Hs|Hs]; [subst y; contradiction|]. apply (Hfresh y); [right; exact Hy|exact Hs].
+Qed.
+
+Theorem src_to_generate_is_model ex req : NoDup ex -> src_to_generate ex req = to_generate ex req.
+Proof.
+  intros Hnd. unfold src_to_generate, to_generate. cbv zeta.
+  set (base := match ex with [] => [] | f0 :: _ => match filter (fun f => memf f req) ex with [] => [f0] | _ :: _ => filter (fun f => memf f req) ex end end).
+  assert (Hg1 : (if negb (is_nil ex) && Nat.ltb 0 (length ex)
+                 then if negb (negb (is_nil (fold_left (fun g f => if memf f req then g ++ [f] else g) ex []))) || Nat.eqb (length (fold_left (fun g f => if memf f req then g ++ [f] else g) ex [])) 0
+                      then match ex with first :: _ => fold_left (fun g f => if memf f req then g ++ [f] else g) ex [] ++ [first] | [] => fold_left (fun g f => if memf f req then g ++ [f] else g) ex [] end
+                      else fold_left (fun g f => if memf f req then g ++ [f] else g) ex []
+                 else []) = base).
+  { rewrite (filter_append_fold (fun f => memf f req) ex []). cbn [app]. unfold base.
+    destruct ex as [|f0 l]; [reflexivity|]. cbn [is_nil negb length Nat.ltb Nat.leb andb].
+    destruct (filter (fun f => memf f req) (f0 :: l)) as [|c cs]; reflexivity. }
+  rewrite Hg1.
+  change (fold_left (fun g f => if negb (memf f g) then g ++ [f] else g) req base) with (fold_left append_if_absent req base).
+  rewrite append_if_absent_fold.
+  assert (Hb : NoDup base).
+  { unfold base. destruct ex as [|f0 l]; [constructor|].
+    destruct (filter (fun f => memf f req) (f0 :: l)) as [|c cs] eqn:Ef; [repeat constructor; intros []|].
+    rewrite <- Ef. apply NoDup_filter. exact Hnd. }
+  rewrite (dedup_by_app_fresh base [] req Hb) by (intros x _ []).
+  rewrite app_nil_r. reflexivity.
 Qed.
